@@ -403,7 +403,20 @@ class BucketWriter:
         if self.throw_out_all_data:
             return False
 
-        # Make sure we're not conflicting with existing data:
+        self.check_conflicts(offset, data)
+        end = offset + len(data)
+        self._sharefile.write_share_data(offset, data)
+
+        self._already_written.set(True, offset, end)
+        self.ss.add_latency("write", self._clock.seconds() - start)
+        self.ss.count("write")
+        return self._is_finished()
+
+    def check_conflicts(self, offset, data):
+        """
+        Raise ``ConflictingWriteError`` if the data differs from what was
+        already written; write nothing.
+        """
         end = offset + len(data)
         for (chunk_start, chunk_stop, _) in self._already_written.ranges(offset, end):
             chunk_len = chunk_stop - chunk_start
@@ -413,12 +426,6 @@ class BucketWriter:
                 raise ConflictingWriteError(
                     "Chunk {}-{} doesn't match already written data.".format(chunk_start, chunk_stop)
                 )
-        self._sharefile.write_share_data(offset, data)
-
-        self._already_written.set(True, offset, end)
-        self.ss.add_latency("write", self._clock.seconds() - start)
-        self.ss.count("write")
-        return self._is_finished()
 
     def _is_finished(self):
         """
